@@ -105,8 +105,8 @@ func runC21(r *lib.Run) {
 		}
 	}
 	opsA := []concOp{
-		{"Validate", func() string { return fmt.Sprint(t.(validator).Validate(lo)) }},
-		{"Validate(leafrefs)", func() string { return fmt.Sprint(t.(validator).Validate()) }},
+		{"Validate", func() string { return errCanon(t.(validator).Validate(lo)) }},
+		{"Validate(leafrefs)", func() string { return errCanon(t.(validator).Validate()) }},
 		{"EmitJSON", func() string { s, err := ygot.EmitJSON(t, jc); return s + fmt.Sprint(err) }},
 		{"Marshal7951", func() string {
 			bs, err := ygot.Marshal7951(t, rc)
@@ -307,4 +307,18 @@ func baseOp(s string) string {
 		return s[:k]
 	}
 	return s
+}
+
+// errCanon canonicalises a (possibly multi-part) validation error: the parts are
+// collected from maps, so their order is not part of the result.
+func errCanon(err error) string {
+	if err == nil {
+		return "<nil>"
+	}
+	parts := strings.FieldsFunc(err.Error(), func(r rune) bool { return r == ',' || r == '\n' })
+	for i := range parts {
+		parts[i] = strings.TrimSpace(parts[i])
+	}
+	sort.Strings(parts)
+	return strings.Join(parts, " | ")
 }
